@@ -101,3 +101,35 @@ PROPS["C20"] = {
     "theorem_status": {"C20_error_no_write": "proved", "C20_error_reported": "proved", "C20_success_exact": "proved",
                        "C20_success_order_independent": "proved", "C20_writes_only_generated": "proved"},
 }
+
+PIPE_TRUSTED = [
+    "gqlparser's lexer, parser and validator (the verdict V is a parameter of the model; the harness calls the validator directly on the union document as the reference), go/parser's string-literal extraction, doublestar globbing",
+    "the per-operation converter is a parameter [conv] of the pipeline model; hypothesis of the invariance theorems: its result depends on the SET of definitions only (import-alias numbering of same-named packages is the known place where the real converter is order-sensitive; the byte-wise oracle watches it)",
+    "gofmt / goimports normalise the import block (trusted)",
+]
+PROPS["C08"] = {
+    "coq": ["Properties/C08.v", "Corr/Pipecorr.v"],
+    "trusted": PIPE_TRUSTED,
+    "assumptions": ["operation names are unique (validator rule UniqueOperationNames)"],
+    "level_text": "Theorems for every enumeration order and multiplicity: the list of files read is a function of the SET of matched names (dedup + sort, with the lexicographic order proved total/antisymmetric/transitive and 'sorting two permutations gives the same list' proved once for all key functions); the emitted type sequence, operation sequence and the type map are independent of map-iteration / insertion order. Tied to parse.go/generate.go by generating each random multi-file project 6x in-process (byte equality) and comparing the order-sensitive structure of the real output (declaration order, operation order, export order, enum values after `extend` over several files) with the model in-kernel.",
+    "level_note": "Trusted: Coq kernel; pipeline-level model with validator and converter as parameters; goimports for the import block; byte-identity across processes/working directories is checked in the thorough tier by CLI runs, not proved.",
+    "theorem_status": {"C08_expand_order_independent": "proved", "C08_expand_is_the_set": "proved", "C08_types_order_independent": "proved",
+                       "C08_ops_order_independent": "proved", "C08_typemap_order_independent": "proved"},
+}
+PROPS["C17"] = {
+    "coq": ["Properties/C17.v", "Corr/Pipecorr.v"],
+    "trusted": PIPE_TRUSTED,
+    "assumptions": ["operation names are unique; validator and converter depend on the set of definitions only (hypotheses of C17_generate_layout_independent)"],
+    "level_text": "Theorems: every definition of every file and Go literal is collected into one document; splitting files / moving definitions into literals / reordering files only permutes the collected definitions; and Generate returns the same output (or fails in both cases) for ANY two layouts whose collected definitions are permutations of each other (via order-independence of the type map and the sorts). Tied to the code by generating each random operation set from the one-file layout and 3 random layouts (files, extensions, raw/interpreted literals in 5 expression contexts) and comparing outputs byte-wise, plus the model's predicted operation set/order in-kernel.",
+    "level_note": "partial: the converter is a parameter assumed order-insensitive; import-alias numbering is not modelled (oracle only).",
+    "theorem_status": {"C17_collect_complete": "proved", "C17_split_file": "proved", "C17_go_literals": "proved",
+                       "C17_reorder_files": "proved", "C17_generate_layout_independent": "proved (hypotheses on validator/converter parameters)"},
+}
+PROPS["C05"] = {
+    "coq": ["Properties/C05.v", "Corr/Pipecorr.v"],
+    "trusted": PIPE_TRUSTED,
+    "assumptions": ["what the validator itself rejects is gqlparser's (third party): proved is that genqlient hands it every definition in one document and obeys its verdict"],
+    "level_text": "Theorems over every source set, validator and converter: a successful Generate certifies that the validator accepted one document containing every definition of every matched file and every `# @genqlient` literal, that no file was skipped and every operation is named, not a Go keyword and converted; and whenever the validator rejects / an operation is anonymous or keyword-named / a file is unusable the result is an error. Tied to the code by single-fault injection over 23 fault classes at random layout positions and schema-change histories over one directory, comparing the real verdict and error class with the model in-kernel, with gqlparser's validator run directly by the harness as the reference.",
+    "level_note": "partial: the validator's verdict is an oracle (validated differentially), the glue around it is proved.",
+    "theorem_status": {"C05_all_validated": "proved", "C05_literals_included": "proved", "C05_reject": "proved"},
+}
